@@ -119,7 +119,8 @@ Definition law (k : fkind) (dflt : val) (ts : list str) : outcome val :=
 (* what the leaf holds for a flag value v *)
 Definition leaf_of_flag (p : pkg) (k : fkind) (lt : ty) (v : val) : outcome val :=
   match k with
-  | FkStrSlice _ | FkIntSlice _ _ | FkStrMap | FkStrSet | FkStrSliceMap | FkIP => Ok v
+  | FkStrSlice _ | FkIntSlice _ _ | FkStrMap | FkStrSet | FkStrSliceMap | FkIP =>
+      match lt with TPtr _ => Ok (VPtr v) | _ => Ok v end
   | _ => match lt with
          | TPtr e => match p with
                      | PStd => if fits e v then Ok (VPtr v) else Err 31      (* out of the leaf's range *)
